@@ -128,6 +128,10 @@ def verify_item(item, timeout_ms=None):
             if keep is not None and tags:
                 pc = [f for i, f in enumerate(full_pc) if (i not in tags) or keep(tags[i])]
                 if len(pc) < len(full_pc):
+                    if os.environ.get("PYVC_DUMP") and os.environ["PYVC_DUMP"] in oname:
+                        os.makedirs("/tmp/pyvc_dump", exist_ok=True)
+                        with open("/tmp/pyvc_dump/" + re.sub(r"[^A-Za-z0-9_.-]", "_", oname)[:150] + "_reduced.smt2", "w") as f:
+                            f.write(solve.to_smt2(pc, z3.Not(goal)))
                     r0 = solve.prove(pc, goal, use_cvc5=False, timeout_ms=min(timeout_ms or 10 ** 9, 8000))
                     if r0.status == "proved":
                         rep["obligations"].append({
@@ -264,6 +268,9 @@ def main(argv=None):
             bad += 1
             if a.v:
                 print(r["message"])
+        if os.environ.get("PYVC_NOTES"):
+            for n in r.get("notes", []):
+                print("   note:", n)
         for o in r["obligations"]:
             tot += 1
             if a.v or o["status"] != "proved" or o["seconds"] > 3:
